@@ -32,7 +32,7 @@ def generated(spec, build, tag="gs"):
     return Gene(path, genome=build)
 
 
-def make_solution(gene, picks, seed, display_format=False, with_added=True, with_missing=True, score=1.0):
+def make_solution(gene, picks, seed, display_format=False, with_added=True, with_missing=True, score=1.0, with_deletion=False):
     """picks: list of ints selecting majors (deletion allele excluded). Returns a MinorSolution."""
     from aldy.solutions import CNSolution, MajorSolution, MinorSolution, SolvedAllele
     from aldy.profile import Profile
@@ -40,7 +40,8 @@ def make_solution(gene, picks, seed, display_format=False, with_added=True, with
 
     rng = random.Random(seed)
     dele = gene.deletion_allele()
-    majors = natsorted(a for a in gene.alleles if gene.alleles[a].cn_config != dele)
+    # the whole-gene deletion allele can be a called copy too (user-supplied structure naming the deletion configuration)
+    majors = natsorted(a for a in gene.alleles if with_deletion or gene.alleles[a].cn_config != dele)
     allm = sorted(gene.mutations)
     sol = []
     for i in picks:
